@@ -32,7 +32,7 @@ FILES['NamespaceManager'] = 'spydrnet/plugins/namespace_manager/__init__.py'
 _PAR = 'is:Netlist|Library|Definition'
 FUNCTIONS += [
     ('NamespaceManager', 'lookup', 'method', [('parent', _PAR), ('element_type', 'is:Foreign'), ('key', 'key'), ('value', 'is:Foreign')]),
-    ('NamespaceManager', 'remove', 'method', [('element', _EL), ('key', 'none'), ('parent', _PAR)]),
+    ('NamespaceManager', 'remove', 'method', [('element', _EL), ('key', 'optkey'), ('parent', 'optis:Netlist|Library|Definition')]),
     ('NamespaceManager', 'add', 'method', [('parent', _PAR), ('child', _EL)]),
     ('NamespaceManager', 'dictionary_set', 'method', [('element', _EL), ('key', 'key'), ('value', 'is:Foreign')]),
     ('NamespaceManager', 'dictionary_delete', 'method', [('element', _EL), ('key', 'key')]),
@@ -108,7 +108,9 @@ class NSSpec(IRSpec):
 
     def policy_names(self, se):
         if not hasattr(self, '_pn'):
-            self._pn = {n: se._const_box(('box', n)) for n in ('EDIF', 'DEFAULT')}
+            c = self.ctx
+            self._pn = {n: Const('policy_name_' + n, c.Ref) for n in ('EDIF', 'DEFAULT')}
+            for t in self._pn.values(): c.axioms += [c.cls(t) == c.C['Foreign'], t != c.pyTrue, t != c.pyFalse]
             self.ctx.axioms.append(self.sv(self._pn['EDIF']) != self.sv(self._pn['DEFAULT']))
         return self._pn
 
@@ -152,6 +154,9 @@ class NSSpec(IRSpec):
         the table-level postcondition, keeps the separation of dictionary objects and leaves everything else alone"""
         c = self.ctx
         pre = dict(st.heap)
+        args = list(args)
+        args[1] = ('key', se.to_key(st, args[1]))
+        args = [a if a[0] in ('key', 'ref') else R(se.as_ref(st, a)) for a in args]
         class _S: pass
         def clauses(cls_, heap, val):
             fake = _S(); fake.heap = heap
@@ -164,10 +169,8 @@ class NSSpec(IRSpec):
             for cl in NS_CLASSES:
                 st.pc.append(Implies(c.cls(N) == c.C[cl], And(clauses(cl, pre, val))))
             return cont(st, val)
-        for f_ in ('dk', 'dv', 'alloc', 'g_role', 'g_own', 'g_kind', 'g_tkey'):
+        for f_ in HAVOCKED:
             st.heap[f_] = c.fresh(f_ + '_pc', pre[f_].sort())
-        x = Const('xq_pc', c.Ref)
-        st.pc.append(ForAll([x], Implies(pre['alloc'][x], st.heap['alloc'][x]), patterns=[pre['alloc'][x]]))
         for cl in NS_CLASSES:
             st.pc.append(Implies(c.cls(N) == c.C[cl], And(clauses(cl, st.heap, None))))
         cont(st, se.none())
@@ -243,6 +246,22 @@ def extra_pre(ctx, spec, h0):
         ForAll([x, kq], Implies(h0['dhas'][x][kq], c.cls(h0['dval'][x][kq]) == c.C['Foreign']), patterns=[h0['dval'][x][kq]])]
 
 
+HAVOCKED = ('dk', 'dv', 'alloc', 'g_role', 'g_own', 'g_kind', 'g_tkey')
+
+
+def frame_clauses(c, h0, h):
+    """what a policy-object method may touch: dictionary contents, allocation (monotone) and the ghost ownership of dictionaries"""
+    x = Const('xq_fr', c.Ref)
+    same = [h[f_] == h0[f_] for f_ in h0 if f_ not in HAVOCKED and f_ in h and not (h[f_] is h0[f_])]
+    return [('C10', 'frame.nothing-but-dictionaries-written', And(same) if same else BoolVal(True)),
+            ('C10', 'frame.allocation-monotone', ForAll([x], Implies(h0['alloc'][x], h['alloc'][x]), patterns=[h0['alloc'][x]]))]
+
+
+def tab_patterns(h, h0, N, T, k, edif=False):
+    fld = 'f_edif' if edif else 'f_namespaces'
+    return [hh['dv'][hh['dv'][hh[fld][N]][T]][k] for hh in (h, h0)]
+
+
 def post(cls_, fname):
     def f(ctx, spec, h0, s, ekind, args, val):
         c = ctx; h = s.heap; self_ = args[0][1]
@@ -255,11 +274,12 @@ def post(cls_, fname):
         def unchanged(edif, exc=None):
             body = tab(spec, h, N, T, k, edif) == tab(spec, h0, N, T, k, edif)
             if exc is not None: body = Implies(Not(exc(N, T, k)), body)
-            return ForAll([N, T, k], Implies(isNS0(N), body))
+            return ForAll([N, T, k], Implies(isNS0(N), body), patterns=tab_patterns(h, h0, N, T, k, edif))
         M_ = spec.nsmap()
         out.append(('C10', 'manager-map-untouched', And(h['dk'][M_] == h0['dk'][M_], h['dv'][M_] == h0['dv'][M_], h['g_par'] == h0['g_par'])))
         for nm_, g_ in separation(c, spec, h, named=True):
             out.append(('C10', 'preserved.' + nm_, g_))
+        out += frame_clauses(c, h0, h)
         if fname in ('no_conflict', 'lookup'):
             out += [('C10', 'pure.names', unchanged(False)), ('C10', 'pure.identifiers', unchanged(True))]
         if fname == 'no_conflict':
@@ -293,10 +313,122 @@ def post(cls_, fname):
                 expN = lambda N_, T_, k_: If(And(key == c.KEY_NAME, N_ == self_, T_ == ty, hadN, k_ == oldN), c.null, tab(spec, h0, N_, T_, k_))
                 expE = lambda N_, T_, k_: If(And(BoolVal(edif_cls), key == c.KEY_EDIF, N_ == self_, T_ == ty, hadE, k_ == oldE), c.null,
                                             tab(spec, h0, N_, T_, k_, True))
-            out.append(('C10', 'name-table', ForAll([N, T, k], Implies(isNS0(N), tab(spec, h, N, T, k) == expN(N, T, k)))))
-            out.append(('C10', 'identifier-table', ForAll([N, T, k], Implies(And(isNS0(N), c.isa(N, 'EdifNamespace')), tab(spec, h, N, T, k, True) == expE(N, T, k)))))
+            out.append(('C10', 'name-table', ForAll([N, T, k], Implies(isNS0(N), tab(spec, h, N, T, k) == expN(N, T, k)), patterns=tab_patterns(h, h0, N, T, k))))
+            out.append(('C10', 'identifier-table', ForAll([N, T, k], Implies(And(isNS0(N), c.isa(N, 'EdifNamespace')), tab(spec, h, N, T, k, True) == expE(N, T, k)),
+                                                          patterns=tab_patterns(h, h0, N, T, k, True))))
         return out
     return f
 
 
-POSTS = {'%s.%s' % (f[0], f[1]): post(f[0], f[1]) for f in FUNCTIONS}
+# ------------------------------------------------------------------ manager level: the hooks of NamespaceManager
+def parent_of(c, h, el):
+    """NamespaceManager.get_parent"""
+    return If(c.isa(el, 'Library'), h['_netlist'][el], If(c.isa(el, 'Definition'), h['_library'][el],
+           If(c.isa(el, 'Port', 'Cable'), h['_definition'][el], If(c.isa(el, 'Instance'), h['_parent'][el], c.null))))
+
+
+def same_policy(c, spec, h, a, b):
+    return And(h['dhas'][a][c.KEY_NS] == h['dhas'][b][c.KEY_NS],
+               Implies(h['dhas'][a][c.KEY_NS], spec.sv(h['dval'][a][c.KEY_NS]) == spec.sv(h['dval'][b][c.KEY_NS])))
+
+
+def arg_pre(ctx, spec, h0, qual, args):
+    """preconditions that mention arguments"""
+    c = ctx
+    if qual == 'NamespaceManager.add':
+        # switching the policy of a subtree (apply_namespace / drop_namespace / is_compliant work-lists) is outside this contract:
+        # parent and child carry the same policy, as they do whenever both were created under one process-wide default
+        par, ch = args[1][1], args[2][1]
+        return [Implies(par != c.null, same_policy(c, spec, h0, par, ch))]
+    if qual == 'NamespaceManager.dictionary_set':
+        # an element's '.NS' entry names a registered policy (dictionary_set('.NS', v) refuses any other v; that branch is bounded only)
+        el = args[1][1]; pn = spec.policy_names(None)
+        v = spec.sv(h0['dval'][el][c.KEY_NS])
+        return [Implies(h0['dhas'][el][c.KEY_NS], Or(v == spec.sv(pn['EDIF']), v == spec.sv(pn['DEFAULT'])))]
+    return []
+
+
+def mpost(fname):
+    def f(ctx, spec, h0, s, ekind, args, val):
+        c = ctx; h = s.heap; M = spec.nsmap()
+        N, T, k = Const('Nq_p', c.Ref), Const('Tq_p', c.Ref), Const('kq_p', c.Ref)
+        isNS0 = lambda n: And(h0['alloc'][n], c.isa(n, *NS_CLASSES))
+        def tables(expN, expE, tag=''):
+            return [('C10', 'name-table' + tag, ForAll([N, T, k], Implies(isNS0(N), tab(spec, h, N, T, k) == expN(N, T, k)), patterns=tab_patterns(h, h0, N, T, k))),
+                    ('C10', 'identifier-table' + tag, ForAll([N, T, k], Implies(And(isNS0(N), c.isa(N, 'EdifNamespace')), tab(spec, h, N, T, k, True) == expE(N, T, k)),
+                                                      patterns=tab_patterns(h, h0, N, T, k, True)))]
+        oldN = lambda N_, T_, k_: tab(spec, h0, N_, T_, k_)
+        oldE = lambda N_, T_, k_: tab(spec, h0, N_, T_, k_, True)
+        common = [('C10', 'manager-map-untouched', And(h['dk'][M] == h0['dk'][M], h['dv'][M] == h0['dv'][M], h['g_par'] == h0['g_par']))]
+        common += [('C10', 'preserved.' + nm_, g_) for nm_, g_ in separation(c, spec, h, named=True)]
+        common += frame_clauses(c, h0, h)
+        unchanged = tables(oldN, oldE, '.unchanged')
+        refuse = lambda: [('C10', 'does-not-raise-%s' % ekind, BoolVal(False))]
+        name_of = lambda e: spec.sv(h0['dval'][e][c.KEY_NAME])
+        id_of = lambda e: spec.sv(spec.lowerf(h0['dval'][e][c.KEY_EDIF]))
+        hadN = lambda e: h0['dhas'][e][c.KEY_NAME]
+        hadE = lambda e: h0['dhas'][e][c.KEY_EDIF]
+        def scope(P):
+            """(is there a table for this parent, the policy object, is it an EDIF one)"""
+            Np = h0['dv'][M][P]
+            return And(P != c.null, h0['dk'][M][P]), Np, c.isa(Np, 'EdifNamespace')
+        if fname == 'lookup':
+            if ekind != 'normal': return refuse()
+            P, ety, key, value = args[1][1], args[2][1], args[3][1], args[4][1]
+            act, Np, ed = scope(P)
+            want = If(act, If(key == c.KEY_NAME, oldN(Np, spec.sv(ety), spec.sv(value)),
+                              If(And(ed, key == c.KEY_EDIF), oldE(Np, spec.sv(ety), spec.sv(spec.lowerf(value))), c.null)), c.null)
+            return common + unchanged + [('C10', 'returns-the-table-entry-of-the-parent', (val[1] == want) if val[0] == 'ref' else BoolVal(False))]
+        if fname in ('remove', 'dictionary_delete', 'dictionary_pop'):
+            # never refuses; afterwards the element's current name / identifier no longer leads to it in its parent's tables, and
+            # nothing else moved
+            if ekind != 'normal': return refuse()
+            el = args[1][1]; keyv = args[2]
+            if fname == 'remove' and args[3][1] is not c.null and not (args[3][1].eq(c.null)):
+                P = args[3][1]
+            else:
+                P = parent_of(c, h0, el)
+            act, Np, ed = scope(P)
+            ty = spec.tyobj(c.cls(el))
+            if keyv[0] == 'key':
+                doN, doE = keyv[1] == c.KEY_NAME, keyv[1] == c.KEY_EDIF
+            else:
+                doN = doE = BoolVal(True)
+            expN = lambda N_, T_, k_: If(And(act, doN, N_ == Np, T_ == ty, hadN(el), k_ == name_of(el)), c.null, oldN(N_, T_, k_))
+            expE = lambda N_, T_, k_: If(And(act, ed, doE, N_ == Np, T_ == ty, hadE(el), k_ == id_of(el)), c.null, oldE(N_, T_, k_))
+            return common + tables(expN, expE)
+        if fname == 'add':
+            P, el = args[1][1], args[2][1]
+            act, Np, ed = scope(P)
+            ty = spec.tyobj(c.cls(el))
+            curN = oldN(Np, ty, name_of(el)); curE = oldE(Np, ty, id_of(el))
+            conflict = And(act, Or(And(hadN(el), curN != c.null, curN != el), And(ed, hadE(el), curE != c.null, curE != el)))
+            if ekind == 'ValueError':
+                return common + unchanged + [('C10', 'refused-only-for-a-sibling-that-owns-the-key', conflict)]
+            if ekind != 'normal': return refuse()
+            expN = lambda N_, T_, k_: If(And(act, N_ == Np, T_ == ty, hadN(el), k_ == name_of(el)), el, oldN(N_, T_, k_))
+            expE = lambda N_, T_, k_: If(And(act, ed, N_ == Np, T_ == ty, hadE(el), k_ == id_of(el)), el, oldE(N_, T_, k_))
+            return common + tables(expN, expE) + [('C10', 'accepted-only-without-conflict', Not(conflict))]
+        if fname == 'dictionary_set':
+            el, key, value = args[1][1], args[2][1], args[3][1]
+            P = parent_of(c, h0, el)
+            act, Np, ed = scope(P)
+            ty = spec.tyobj(c.cls(el))
+            newN = spec.sv(value); newE = spec.sv(spec.lowerf(value))
+            curN = oldN(Np, ty, newN); curE = oldE(Np, ty, newE)
+            conflict = And(act, Or(And(key == c.KEY_NAME, curN != c.null, curN != el), And(ed, key == c.KEY_EDIF, curE != c.null, curE != el)))
+            pn = spec.policy_names(None)
+            illegal = And(key == c.KEY_EDIF, h0['dhas'][el][c.KEY_NS], spec.sv(h0['dval'][el][c.KEY_NS]) == spec.sv(pn['EDIF']), Not(spec.legal_id(value)))
+            if ekind == 'ValueError':
+                return common + unchanged + [('C10', 'refused-only-for-a-duplicate-or-an-illegal-identifier', Or(conflict, illegal))]
+            if ekind != 'normal': return refuse()
+            expN = lambda N_, T_, k_: If(And(act, key == c.KEY_NAME, N_ == Np, T_ == ty, k_ == newN), el,
+                                        If(And(act, key == c.KEY_NAME, N_ == Np, T_ == ty, hadN(el), k_ == name_of(el)), c.null, oldN(N_, T_, k_)))
+            expE = lambda N_, T_, k_: If(And(act, ed, key == c.KEY_EDIF, N_ == Np, T_ == ty, k_ == newE), el,
+                                        If(And(act, ed, key == c.KEY_EDIF, N_ == Np, T_ == ty, hadE(el), k_ == id_of(el)), c.null, oldE(N_, T_, k_)))
+            return common + tables(expN, expE) + [('C10', 'accepted-only-without-conflict-and-legal', Not(Or(conflict, illegal)))]
+        return []
+    return f
+
+
+POSTS = {'%s.%s' % (f[0], f[1]): (post(f[0], f[1]) if f[0] != 'NamespaceManager' else mpost(f[1])) for f in FUNCTIONS}
